@@ -131,6 +131,13 @@ CLAIMED["C17"] = ("DESIGN.md §4 C17",
     "under the Ok edge of get_uid_by_token(cookie HumphreyToken) with that uid and answers 401 otherwise; create and verify use create_argon2_instance(pepper) with "
     "self.config.pepper; valid() is the strict now < expiry. Argon2 and token uniqueness are not decided.")
 
+CLAIMED["C18"] = ("DESIGN.md §4 C18",
+    "R-TABLE (constants and tables against RFC 3174 / 4648 / 3986 / 9110 oracles; SHA-1 round functions compared by truth table; affine normal forms for offsets), R-SIBLING (Base64 decoder arms share one shift expression), R-DOM (hex-digit gates on both characters before from_str_radix), R-PANIC over the two decoders",
+    "Decides: SHA-1 initial values, round constants with their ranges, Ch/Parity/Maj, rotations 1/5/30, big-endian conversions and 0x80 padding; Base64 alphabet, symbol offsets, "
+    "masks, shifts and padding; the RFC 3986 unreserved set and %XX form; day/month names, March-first month lengths, epoch and weekday offset, 4/100/400-year day counts, "
+    "IMF-fixdate template and field order; every Base64 decoder arm shifts by the same expression; percent_decode tests both characters for hex digits; neither decoder can "
+    "panic on malformed input. Bit-exactness of the algorithms for every input is a value property and is not decided.")
+
 NOT_YET = {}
 
 NOT_APPLICABLE = {
